@@ -241,10 +241,20 @@ def required_labels(tier):
     return ['by-version', 'by-count', 'symbols-2', 'symbols-9-16', 'mode-numeric', 'mode-alphanumeric', 'mode-byte', 'mode-kanji', 'mode-hanzi', 'refused']
 
 
+def _fuzz(tier):
+    """Coverage-guided phase (atheris), thorough tier (or VERIF_FUZZ_RUNS=<n> in any tier)."""
+    import os
+    runs = int(os.environ.get('VERIF_FUZZ_RUNS', '0' if tier == 'quick' else '96000'))
+    if not runs:
+        return []
+    from .. import fuzz
+    return [fuzz.fuzz_phase(__name__, runs, decoder='sequence')]
+
+
 def phases(tier, seed):
     n = 9600 if tier == 'quick' else 200000
     return [
         Enum('per-symbol-boundaries', lambda: boundary_cases(tier), exhaustive=False,
              note='k x per-symbol capacity -1/0/+1 characters for versions x levels x modes'),
         Search('sequences', sequence_cases(), n),
-    ]
+    ] + _fuzz(tier)
